@@ -286,7 +286,7 @@ func runRoundTrip(c *mon.Case, p *rtParams) {
 func roundtrip(x *mon.Ctx, cv enc.Curve) {
 	selfTest(x)
 	name := cvName(cv)
-	reps := x.Scale(2, 30)
+	reps := x.Scale(1, 30)
 	if !isSM2(cv) {
 		reps = x.Scale(1, 12)
 	}
